@@ -164,7 +164,8 @@ Definition plen_of (a : hacc) : plen :=
 (* result: the payload length plus what set_connection_type / set_expect receive *)
 Definition set_headers (ver : version) (hs : list header) : option (plen * option ctype * bool) :=
   match headers_fold ver hacc0 hs with
-  | Some a => Some (plen_of a, h_ka a, h_expect a)
+  | Some a => Some (plen_of a, h_ka a, h_expect a && version_eqb ver V11)
+      (* `if expect && version >= Version::HTTP_11 { self.set_expect() }` *)
   | None => None
   end.
 
